@@ -431,8 +431,9 @@ theorem acceptDelivery_wf {s s' : BState} (h : SubsWF s) (c : ConnId) (x : BConn
             some ((s.setSessOf c b').setConn c
               (retake { x with deqHand := false, deqChan := min s.cfg.window (x.deqChan + 1) })))
          else
-          (if (b'.sess.nextID).1 ≠ id then none else
-            some ((s.setSessOf c { b' with sess := (b'.sess.nextID).2.savePacket .outgoing (.publish out false id) }).setConn c
+          (if (b'.sess.freshID).1 = 0 then none else
+           if (b'.sess.freshID).1 ≠ id then none else
+            some ((s.setSessOf c { b' with sess := (b'.sess.freshID).2.savePacket .outgoing (.publish out false id) }).setConn c
               (retake { x with deqHand := false })))) = some r → b'.subs.WF → SubsWF r := by
       intro b' out r hr hw
       split at hr
@@ -441,8 +442,10 @@ theorem acceptDelivery_wf {s s' : BState} (h : SubsWF s) (c : ConnId) (x : BConn
         · injection hr with hr; rw [← hr]; exact (h.setSessOf c hw).setConn c _
       · split at hr
         · cases hr
-        · injection hr with hr; rw [← hr]
-          refine SubsWF.setConn ?_ c _; exact h.setSessOf c hw
+        · split at hr
+          · cases hr
+          · injection hr with hr; rw [← hr]
+            refine SubsWF.setConn ?_ c _; exact h.setSessOf c hw
     simp only at ha
     split at ha
     · rename_i s1 hfs
